@@ -65,13 +65,18 @@ def firstTrueFrom (p : Nat → Bool) : Nat → Nat → Nat
   | 0, i => i
   | fuel + 1, i => if p i then i else firstTrueFrom p fuel (i + 1)
 
+/-- the node at position `i` can reach `x` -/
+def reachesAt (nw : Network) (nodes : List Nat) (x : Nat) (i : Nat) : Bool := nw.canReach (nodes.getD i 0) x
+/-- `x` can reach the node at position `i` -/
+def reachedAt (nw : Network) (nodes : List Nat) (x : Nat) (i : Nat) : Bool := nw.canReach x (nodes.getD i 0)
+
 /-- number of nodes of the longest prefix whose last node can reach `x` (0 = empty prefix) -/
 def keepPrefixLen (nw : Network) (nodes : List Nat) (x : Nat) : Nat :=
-  lastTrueLen (fun i => nw.canReach (nodes.getD i 0) x) nodes.length
+  lastTrueLen (reachesAt nw nodes x) nodes.length
 
 /-- start index of the longest suffix whose first node `x` can reach (`length` = empty suffix) -/
 def keepSuffixStart (nw : Network) (nodes : List Nat) (x : Nat) : Nat :=
-  firstTrueFrom (fun i => nw.canReach x (nodes.getD i 0)) nodes.length 0
+  firstTrueFrom (reachedAt nw nodes x) nodes.length 0
 
 /-- the depots of a path are dropped when it is inserted into a dummy tour -/
 def stripForDummy (nw : Network) (isDummy : Bool) (path : List Nat) : List Nat :=
